@@ -193,7 +193,15 @@ def parse_keywords(lines, multiline_values=True, key_hints=None):
                 rtn[line.strip()] = DEFAULT_VALUE
 
             elif multiline_values is False:
-                rtn[key] = value
+                # finish the previous key like every other one (it may
+                # be a repeated key, i.e. a list), then note the bare one
+                if key in rtn:
+                    if isinstance(rtn[key], list):
+                        rtn[key].append(unquote(value))
+                    else:
+                        rtn[key] = [rtn[key], unquote(value)]
+                else:
+                    rtn[key] = unquote(value)
                 rtn[line.strip()] = DEFAULT_VALUE
                 key = None
                 value = ''
